@@ -357,10 +357,18 @@ func (b Binder) ToGo(s *Shape, v any, dst reflect.Value) (ok bool) {
 		reflect.Copy(dst, reflect.ValueOf(bs))
 		return true
 	case Bytes:
+		if bs := v.([]byte); bs == nil {
+			dst.SetBytes(nil) // a nil slice stays nil (encoders must treat it as the empty vector)
+			return true
+		}
 		dst.SetBytes(append([]byte{}, v.([]byte)...))
 		return true
 	case Vec:
 		l := v.([]any)
+		if l == nil {
+			dst.Set(reflect.Zero(dst.Type()))
+			return true
+		}
 		sl := reflect.MakeSlice(dst.Type(), len(l), len(l))
 		for i, e := range l {
 			if !b.ToGo(s.Elem, e, sl.Index(i)) {
